@@ -137,6 +137,8 @@ struct St {
     clock_left: u32,
     jobs_run: u64,
     clock_request: Option<Duration>,
+    exploring: bool,
+    logical: u64,
 }
 
 pub struct Ctl {
@@ -160,6 +162,8 @@ impl Ctl {
                 clock_left: cfg.clock_choices,
                 jobs_run: 0,
                 clock_request: None,
+                exploring: true,
+                logical: 0,
             }),
             cfg,
             log: RefCell::new(IoLog::default()),
@@ -187,6 +191,32 @@ impl Ctl {
     /// Asks the driver to advance the paused clock by `d` before its next scheduling decision.
     pub fn request_clock(&self, d: Duration) {
         self.st.borrow_mut().clock_request = Some(d);
+    }
+
+    /// While false the driver follows the default policy and records no decisions (used for
+    /// the sequential prefix and epilogue of an interleaving harness).
+    pub fn set_exploring(&self, on: bool) {
+        self.st.borrow_mut().exploring = on;
+    }
+
+    fn exploring(&self) -> bool {
+        self.st.borrow().exploring
+    }
+
+    /// A strictly increasing logical time stamp (invocation / response order of client calls).
+    pub fn stamp(&self) -> u64 {
+        let mut st = self.st.borrow_mut();
+        st.logical += 1;
+        st.logical
+    }
+
+    /// Forget the scheduling point the running task registered in this poll (used when the
+    /// future that registered it is dropped within the same poll).
+    pub fn clear_pending_point(&self) {
+        let mut st = self.st.borrow_mut();
+        if let Some(id) = st.in_poll {
+            st.tasks[id].pending_point = None;
+        }
     }
 
     fn take_clock_request(&self) -> Option<Duration> {
@@ -223,6 +253,16 @@ impl Ctl {
             .tasks
             .iter()
             .any(|t| t.name == name && !matches!(t.state, TState::Done | TState::Panicked))
+    }
+
+    pub fn state_summary(&self) -> String {
+        let st = self.st.borrow();
+        st.tasks
+            .iter()
+            .enumerate()
+            .map(|(i, t)| format!("{i}:{}:{:?}{}", t.name, t.state, if t.external > 0 { "(ext)" } else { "" }))
+            .collect::<Vec<_>>()
+            .join(" ")
     }
 
     pub fn pending_jobs(&self) -> usize {
@@ -295,8 +335,9 @@ impl Ctl {
         st.jobs.remove(pos)
     }
 
-    fn first_job(&self) -> Option<usize> {
-        self.st.borrow().jobs.front().map(|j| j.id)
+    /// first pending job submitted by task `id`
+    fn first_job_of(&self, id: TaskId) -> Option<usize> {
+        self.st.borrow().jobs.iter().find(|j| j.owner == Some(id)).map(|j| j.id)
     }
 }
 
@@ -335,6 +376,9 @@ impl Controller for Ctl {
         let panicking = std::thread::panicking();
         let mut st = self.st.borrow_mut();
         st.in_poll = None;
+        // one poll per grant: a wake that arrives before the driver runs again (self-wake, or a
+        // blocking-pool completion racing with this poll) must not let the task run on
+        st.token = None;
         st.tasks[id].polled = true;
         st.tasks[id].state = if panicking {
             TState::Panicked
@@ -439,6 +483,8 @@ pub enum EndState {
 
 #[derive(Debug, Clone)]
 pub struct RunTrace {
+    /// every driver step (only when PEARL_MC_TRACE is set)
+    pub steps_log: Vec<String>,
     pub decisions: Vec<Decision>,
     pub end: EndState,
     pub steps: usize,
@@ -496,6 +542,8 @@ fn default_index(enabled: &[Entity], cont: Option<usize>) -> usize {
 /// (divergence is an error), afterwards the default policy decides.
 pub async fn drive(ctl: &Ctl, prefix: &[usize]) -> RunTrace {
     let mut decisions: Vec<Decision> = Vec::new();
+    let tracing = std::env::var_os("PEARL_MC_TRACE").is_some();
+    let mut steps_log: Vec<String> = Vec::new();
     let mut last: Option<Entity> = None;
     let mut steps = 0usize;
     let start_clock = tokio::time::Instant::now();
@@ -514,9 +562,14 @@ pub async fn drive(ctl: &Ctl, prefix: &[usize]) -> RunTrace {
         );
         // external sections: no decisions
         if let Some((id, ready)) = ctl.external_task() {
+            if tracing {
+                steps_log.push(format!("external {id} ready={ready} jobs={:?}", ctl.first_job_of(id)));
+            }
             if ready {
                 grant(ctl, id).await;
-            } else if let Some(j) = ctl.first_job() {
+            } else if let Some(j) = ctl.first_job_of(id) {
+                // the section's owner waits for its own file operation (e.g. during init); jobs
+                // of other tasks stay where they are: running them here would depend on timing
                 run_job(ctl, j);
             } else {
                 // wait for the real blocking pool
@@ -529,6 +582,7 @@ pub async fn drive(ctl: &Ctl, prefix: &[usize]) -> RunTrace {
                     }
                     if t0.elapsed() > Duration::from_secs(20) {
                         return RunTrace {
+                            steps_log,
                             decisions,
                             end: EndState::Deadlock(
                                 ctl.unfinished()
@@ -577,6 +631,7 @@ pub async fn drive(ctl: &Ctl, prefix: &[usize]) -> RunTrace {
                 )
             };
             return RunTrace {
+                steps_log,
                 decisions,
                 end,
                 steps,
@@ -585,6 +640,7 @@ pub async fn drive(ctl: &Ctl, prefix: &[usize]) -> RunTrace {
         steps += 1;
         if steps > ctl.cfg.step_cap {
             return RunTrace {
+                steps_log,
                 decisions,
                 end: EndState::StepCap,
                 steps,
@@ -594,11 +650,14 @@ pub async fn drive(ctl: &Ctl, prefix: &[usize]) -> RunTrace {
         let def = default_index(&enabled, cont);
         let chosen = if enabled.len() == 1 {
             0
+        } else if !ctl.exploring() {
+            def
         } else {
             let i = decisions.len();
             let c = if i < prefix.len() { prefix[i] } else { def };
             if c >= enabled.len() {
                 return RunTrace {
+                    steps_log,
                     decisions,
                     end: EndState::Divergence(format!(
                         "decision {i}: choice {c} out of range, enabled {enabled:?}"
@@ -615,6 +674,9 @@ pub async fn drive(ctl: &Ctl, prefix: &[usize]) -> RunTrace {
             c
         };
         let e = enabled[chosen];
+        if tracing {
+            steps_log.push(format!("{:?} of {:?} states {}", e, enabled, ctl.state_summary()));
+        }
         match e {
             Entity::Task(t) => grant(ctl, t).await,
             Entity::Job { id, .. } => run_job(ctl, id),
